@@ -238,7 +238,7 @@ class Check:
         try:
             import resource
             soft, hard = resource.getrlimit(resource.RLIMIT_AS)
-            cap = 6 * 2**30
+            cap = (6 if self.tier == "quick" else 20) * 2**30
             if on and (hard == resource.RLIM_INFINITY or hard > cap):
                 resource.setrlimit(resource.RLIMIT_AS, (cap, hard))
             elif not on:
@@ -350,6 +350,7 @@ class Check:
             finally:
                 self._release()
             exe = self._driver_copy
+        self._cap_memory(False)            # the model's input and output streams can be large (thorough tier): this is the harness's own memory
         data = "\n".join(lines) + "\n"
         p = subprocess.run([exe], input=data, capture_output=True, text=True, timeout=timeout)
         if p.returncode != 0:
@@ -358,6 +359,7 @@ class Check:
         out = p.stdout.split("\n")
         if out and out[-1] == "":
             out.pop()
+        self._cap_memory(True)
         return out
 
     def leanchecker(self, modules):
